@@ -5,6 +5,10 @@
 
 package dirlock
 
+// The descriptor is stored by Lock (called once, at start-up) and never replaced afterwards (checked by the SSA sweep).
+//@ constructors (*dirlock.DirLock).Lock
+//@ immutable DirLock.f
+
 // LOCK_EX|LOCK_NB = 2|4 (linux): exclusive, and fail instead of waiting for the holder.
 //@ fn gLockExNb() int := 6
 
@@ -18,3 +22,17 @@ package dirlock
 //@   ensures[flock-error-propagated] gDirOpenErr == nil ==> ((result == nil) <==> (gFlockErr == nil))
 //@   ensures[holds-the-file] gDirOpenErr == nil ==> l.f == gDirOpenFile
 //@   modifies l.f, gDirOpens, gDirOpenName, gDirOpenFile, gDirOpenErr, gFlocks, gFlockFd, gFlockHow, gFlockErr
+
+// Unlock releases the flock (LOCK_UN = 8) on the descriptor Lock opened and closes it afterwards.
+// [daemon-quiesced] (call protocol, typestate ghost gQuiesced of gmeta.spec): the data path is given up only after
+// the daemon's goroutines have been waited for (sync.WaitGroup.Wait returned) and no metadata write has been
+// started since - otherwise a second nsqd could take the path while this one still writes to it.
+//@ func (l *DirLock) Unlock() error
+//@   props C06
+//@   nochan
+//@   requires l != nil && l.f != nil
+//@   requires[daemon-quiesced] gQuiesced
+//@   ensures[unlocks-that-descriptor] gFlocks == old(gFlocks) + 1 && gFlockHow == 8 && gFlockFd == wrapI64(gFdOf(l.f))
+//@   ensures[flock-error-returned] result == gFlockErr
+//@   ensures[closes-after-unlock] hFcloses == old(hFcloses) + 1 && hFclosedFile == l.f
+//@   modifies gFlocks, gFlockFd, gFlockHow, gFlockErr, hFcloses
